@@ -9,12 +9,20 @@ for s in sys.argv[2:]:
     p, x = s.split(":")
     src = f"/tmp/seed-{p}"
     prop = p[:3]
-    v = json.loads(subprocess.run(["python3", f"{ROOT}/tools/verify_seed.py", src, x], capture_output=True, text=True).stdout.strip().splitlines()[-1])
+    cache = f"{ROOT}/work/verify-cache/{p}-{x}.json"   # written by a parallel `verify_seed.py <dir> <X> > cache` pre-pass, same procedure
+    if os.path.exists(cache):
+        v = json.loads(open(cache).read().strip().splitlines()[-1])
+    else:
+        v = json.loads(subprocess.run(["python3", f"{ROOT}/tools/verify_seed.py", src, x], capture_output=True, text=True).stdout.strip().splitlines()[-1])
     ok = v.get("patch_applies") and "98 passed" in v.get("tests_nojit", "") and "98 passed" in v.get("tests_jit", "") and v.get("demo_applies") and v.get("demo_with_change") == "FAILED" and v.get("demo_without_change") == "ok"
     if not ok:
         print(f"{p}-{x}: NOT VERIFIED {json.dumps(v)[:500]}")
         continue
-    t = json.loads(subprocess.run(["python3", f"{ROOT}/tools/try_seed.py", f"{src}/{x}.patch.diff", prop], capture_output=True, text=True).stdout.strip().splitlines()[-1])
+    tcache = f"{ROOT}/work/try-cache/{p}-{x}.json"   # same, for a try_seed.py pre-pass
+    if os.path.exists(tcache):
+        t = json.loads(open(tcache).read().strip().splitlines()[-1])
+    else:
+        t = json.loads(subprocess.run(["python3", f"{ROOT}/tools/try_seed.py", f"{src}/{x}.patch.diff", prop], capture_output=True, text=True).stdout.strip().splitlines()[-1])
     am = json.load(open(f"{src}/{x}.meta.json"))
     dst = f"{ROOT}/seeded/{p}-{x}"
     os.makedirs(dst, exist_ok=True)
